@@ -23,6 +23,9 @@ type Obligation struct {
 	OK        bool   `json:"ok"`
 	Detail    string `json:"detail,omitempty"`
 	Known     bool   `json:"known_finding,omitempty"`
+	// Definite: the rule exhibits the offending construct (a path, a store) rather than failing to
+	// recognise a form; such a failure is not retried on the normalised program
+	Definite bool `json:"definite,omitempty"`
 }
 
 func (o Obligation) Key() string { return o.Rule + " " + o.Func + "#" + o.Construct }
@@ -60,6 +63,13 @@ func (r *Result) add(rule, fn, kind, what, pos string, ok bool, detail string) {
 	}
 	r.Obls = append(r.Obls, Obligation{Rule: r.Prop + "/" + rule, Func: fn, Construct: c, Pos: pos, OK: ok, Detail: detail})
 	r.Funcs[fn] = true
+}
+
+// markDefinite flags the obligation added last as a definite failure.
+func (r *Result) markDefinite() {
+	if n := len(r.Obls); n > 0 && !r.Obls[n-1].OK {
+		r.Obls[n-1].Definite = true
+	}
 }
 
 func (r *Result) fatal(format string, a ...interface{}) {
@@ -281,7 +291,13 @@ func main() {
 		*noNorm = true
 	}
 	res := runProp(*prop, f, *repo, *tier)
-	if !*noNorm && resFailed(res, *prop, *verif) {
+	definite := false
+	for _, o := range res.Obls {
+		if !o.OK && o.Definite {
+			definite = true
+		}
+	}
+	if !*noNorm && !definite && resFailed(res, *prop, *verif) {
 		// the same check on the program with the calls unknown to the rules inlined (inline.go)
 		if ov, log := normalizeByInlining(*repo, runOverlay); ov != nil {
 			saved := runOverlay
